@@ -179,6 +179,60 @@ def gen_lines(spec: dict, res: dict):
                     return None
                 groups.append(c)
         return line("gen_gauss", hdr, shape, [a, need], *groups)
+    if name in ("KtUniform", "KtGaussian1D"):
+        l = G.num_low_freqs(name, cols, cf)
+        if racs:
+            return line("gen_ktuniform" if name == "KtUniform" else "gen_ktgauss", hdr, shape, [l])
+        if 0 <= l <= cols and (l * acc == cols or l == cols):
+            return None          # float glue divides by zero (adjusted acceleration 0 or undefined): not modelled
+        if name == "KtUniform":
+            rs = [d for d in draws[1:] if d[0] == "randint"]
+            if len(rs) < 2:
+                return line("gen_ktuniform", hdr, shape, [l], [], [])
+            adjusted = (acc * (l - cols)) / (l * acc - cols)
+            p_idx = np.arange(int(rs[0][3]), cols, adjusted).astype(int).tolist()
+            t_idx = np.arange(int(rs[1][3]), F, acc).astype(int).tolist()
+            return line("gen_ktuniform", hdr, shape, [l], p_idx, t_idx)
+        ch = [d[1] for d in draws if d[0] == "choice"]
+        return line("gen_ktgauss", hdr, shape, [l], *[[int(v) for v in c] for c in ch])
+    if name in ("Radial", "Spiral"):
+        golden = (1 + np.sqrt(5)) / 2
+        if cf is None or cf == 0:
+            specg = [2] + circus_thresholds(rows, cols)
+            accel = acc
+        else:
+            radius = G.disc_radius(rows, cols, cf)
+            specg = [1, radius]
+            L = G.disc_count(rows, cols, radius)
+            accel = (acc * (L - rows * cols)) / (L * acc - rows * cols) if L * acc != rows * cols else None
+        if racs and specg[0] != 2:
+            return line("gen_circus", hdr, shape, specg, [0])
+        if accel is None:
+            return None
+        max_dim = max(rows, cols) - max(rows, cols) % 2
+        min_dim = min(rows, cols) - min(rows, cols) % 2
+        nsq = max_dim // 2
+        M = int(np.prod((rows, cols)) / (accel * (max_dim / 2 - (max_dim - min_dim) * (1 + min_dim / max_dim) / 4)))
+        frames = []
+        for d in draws[1:]:
+            if name == "Radial" and d[0] == "randint":
+                t = int(np.asarray(d[3]).reshape(-1)[0])
+                fl = []
+                for sq in range(nsq):
+                    K = 4 * (2 * (nsq - sq) - 1)
+                    fl += [int(np.floor(np.mod((m + t * M) / golden, 1) * K)) for m in range(M)]
+                frames.append(fl)
+            elif name == "Spiral" and d[0] == "uniform":
+                c = float(np.asarray(d[3]).reshape(-1)[0])
+                fl = []
+                for sq in range(nsq):
+                    J = 2 * (nsq - sq)
+                    K = 4 * (J - 1)
+                    for m in range(M):
+                        i = np.floor(np.mod(m / golden, 1) * K)
+                        fl.append(int(np.mod((i + np.ceil(J ** c) - 1), K)))
+                frames.append(fl)
+        return line("gen_circus", hdr, shape, specg, [max(M, 0)], *frames)
     # interior given as data
     if fam in ("line", "ktline"):
         l = G.num_low_freqs(name, cols, cf)
